@@ -501,14 +501,22 @@ def execute(case: dict, *, root: str | None = None, subprocess_check: bool = Fal
                     viols.append(Violation("C16.input_error_not_loud", "%s on %s: status %d, stdout %r" % (fkind, ch, r.status, r.stdout[:80]), None, dict(facts, channel=ch)))
             return viols, stats, [digest([case["cmd"], case["text_kind"], fkind])]
 
-        # expected behaviour from the library
+        # expected behaviour from the library (the reference call always has plenty of stack: under the stack fault
+        # the fault-free answer is what is compared with, wherever this harness happens to be called from)
+        _limit = sys.getrecursionlimit()
+        sys.setrecursionlimit(max(_limit, 20000))
+        try:
+            ref_verdict = library_verdict(text) if cmd[0] == "test" else None
+            ref_edit = library_edit(text, cmd) if cmd[0] != "test" else None
+        finally:
+            sys.setrecursionlimit(_limit)
         if cmd[0] == "test":
-            ok = library_verdict(text)
+            ok = ref_verdict
             want_out, want_status = (b"OK\n", 0) if ok else (b"Fail\n", 1)
             facts["verdict"] = ok
             stats["verdict:" + ("ok" if ok else "fail")] = 1
         else:
-            lib = library_edit(text, cmd)
+            lib = ref_edit
             facts["lib"] = lib[0] if lib[0] == "ok" else lib[1]
             if lib[0] == "ok":
                 t = lib[1]
